@@ -201,3 +201,69 @@ Print Assumptions fuel_mono_catch.
 Theorem fuel_mono_done : forall A (r r' : res A), rle r r' -> is_eff r = false -> r <> OutOfFuel -> r' = r.
 Proof. exact @rle_done_lemma. Qed.
 Print Assumptions fuel_mono_done.
+
+(* ---------------------------------------------------------------------------------------------
+   M-VM: the implementation-side model of gopher-lua's bytecode VM (coq/VMX), which runs the
+   prototypes dumped from the real compiler. For all prototypes, states and fuel. *)
+From GL Require Import Lua.LuaCases.
+From GL Require Import VMX.Machine VMX.Step VMX.Builtins VMX.VRun VMX.VmCases VMX.WfTie.
+From GL Require VMX.VRunFacts VMX.WfTieFacts VMX.VmCasesFacts VM.WfProto VM.WfFacts.
+
+Theorem vm_deterministic : forall fuel p r1 r2, run_proto fuel p = r1 -> run_proto fuel p = r2 -> r1 = r2.
+Proof. exact VRunFacts.vm_deterministic. Qed.
+Print Assumptions vm_deterministic.
+
+Theorem vm_fuel_mono : forall n p, run_proto n p <> VFinFuel -> forall k, run_proto (n + k) p = run_proto n p.
+Proof. exact VRunFacts.vm_fuel_mono. Qed.
+Print Assumptions vm_fuel_mono.
+
+Theorem vm_outcome_fuel_indep : forall n m p,
+  run_proto n p <> VFinFuel -> run_proto m p <> VFinFuel -> run_proto n p = run_proto m p.
+Proof. exact VRunFacts.vm_outcome_fuel_indep. Qed.
+Print Assumptions vm_outcome_fuel_indep.
+
+(* what one passed VProg case certifies: reference evaluator, VM model on the real compiler's
+   output and the real interpreter agree on that program *)
+Theorem vprog_validated : forall body p obs,
+  check_skip (VProg body p obs) = false -> vm_skip p = false ->
+  check_spec (VProg body p obs) = true -> check_impl (VProg body p obs) = true ->
+  VmCasesFacts.certified body p obs.
+Proof. exact VmCasesFacts.vprog_validated. Qed.
+Print Assumptions vprog_validated.
+
+(* The full statement of C01 over the implementation: for every program the compiler's output run
+   by the VM has the reference outcome. It is NOT proved (the compiler is not modelled); what is
+   proved is vprog_validated for each generated program, and the tie to C07 below. *)
+Definition C01_vm_statement (compile : list stmt -> option xproto) : Prop :=
+  forall body p, compile body = Some p ->
+    is_skip (outcome_of (Run.run_program LuaCases.fuel no_devs body)) = false -> vm_skip p = false ->
+    outcome_eqb (vm_outcome p) (outcome_of (Run.run_program LuaCases.fuel no_devs body)) = true.
+
+(* Tie to C07: at an instruction that passes C07's checker (any opcode except OP_TFORLOOP, whose
+   second Code read happens after a re-entrant call), the VM model's instruction function performs
+   no out-of-range access to Code, Constants, FunctionPrototypes or the closure's upvalue slots,
+   provided the re-entered main loop and the host functions do not. Missing for the full statement
+   "a run of a wf prototype never indexes out of range": OP_TFORLOOP, and the run-level invariants
+   (every closure has NumUpvalues slots, every frame's pc is an instruction head). *)
+Theorem wf_exec_op_noob : forall ml gf, (forall b, noob (ml b)) -> (forall b, noob (gf b)) ->
+  forall cl cf inst base o,
+  closure_ok cl ->
+  xp_nregs (cl_proto cl) <= WfProto.frame_limit ->
+  0 <= fr_pc cf - 1 ->
+  op_of_code (opGetOpCode inst) = Some o ->
+  WfProto.inst_ok (WfTieFacts.fn_of (cl_proto cl)) (WfProto.tags_of (WfTieFacts.fn_of (cl_proto cl))) (fr_pc cf - 1) inst = true ->
+  o <> OP_TFORLOOP ->
+  noob (exec_op ml gf cl cf inst base).
+Proof. exact WfTieFacts.wf_exec_op_noob_lemma. Qed.
+Print Assumptions wf_exec_op_noob.
+
+Theorem wf_step_noob_partial : forall ml gf cl cf inst base o,
+  (forall b, noob (ml b)) -> (forall b, noob (gf b)) ->
+  WfProto.wf_fn (WfTieFacts.fn_of (cl_proto cl)) = true ->
+  closure_ok cl ->
+  WfFacts.pc_ok (WfTieFacts.fn_of (cl_proto cl)) (fr_pc cf - 1) ->
+  zth (xp_code (cl_proto cl)) (fr_pc cf - 1) = Some inst ->
+  op_of_code (opGetOpCode inst) = Some o -> o <> OP_TFORLOOP ->
+  noob (exec_op ml gf cl cf inst base).
+Proof. exact WfTieFacts.wf_step_noob_lemma. Qed.
+Print Assumptions wf_step_noob_partial.
